@@ -269,9 +269,9 @@ func faultedStreams(base []byte, rng *splitmix, maxExhaustive int, samples int, 
 	// beyond, and an input of thousands of lines. Whether the result is valid is the verdict's call.
 	if i := strings.Index(string(base), "---\n"); i >= 0 && samples > 0 {
 		at := i + 4
-		target := []int{4096, 8192, 16384, 65536}[rng.intn(4)] + rng.intn(17) - 8
+		target := []int{4096, 4096, 8192, 8192, 16384, 16384, 16384, 65536}[rng.intn(8)] + rng.intn(17) - 8
 		if rng.chance(25) {
-			target = 3000 + rng.intn(70000)
+			target = 3000 + rng.intn(30000)
 		}
 		open, closing := []string{"PAD", "// pad", "<<c0 pad", "PAD {1} #tag"}[rng.intn(4)], ""
 		if strings.HasPrefix(open, "<<") {
